@@ -2,7 +2,7 @@
   Driver.Main — one JSON object per line in, one per line out.  See /verif/DESIGN.md Appendix B.
 -/
 import Driver.Wire
-open Lean Ergo Ergo.Wire
+open Lean Ergo Ergo.Wire Ergo.Storage
 
 def handle (j : Json) : Json :=
   match str j "op" with
@@ -43,6 +43,18 @@ def handle (j : Json) : Json :=
         ("claimed", match r.out.claimed with | some t => Json.str t.id | none => Json.null),
         ("pruned", Json.arr (r.out.pruned.map Json.str).toArray),
         ("post", post)]
+  | "storage" =>
+    let classify := classifierOf (j.getObjValD "classes")
+    let limit := (j.getObjValAs? Nat "limit").toOption.getD 10485760
+    let file := unhex (str j "file")
+    let batch := (arr j "append").map fun a => (eventOf (a.getObjValD "event"), unhex (str a "hex"))
+    -- the encoder is the table of the bytes the real json.Marshal produced for this batch
+    let encode : Event → Storage.Bytes := fun e => ((batch.find? fun p => p.1 == e).map (·.2)).getD []
+    let after := batch.foldl (fun f p => f ++ p.2 ++ [Storage.NL]) (Storage.repairTail classify file)
+    Json.mkObj [("read", readJson (Storage.readEvents classify limit file)),
+      ("after", tohex (if batch.isEmpty then Storage.repairTail classify file else after)),
+      ("after_model", tohex (Storage.appendFile classify encode file (batch.map (·.1)))),
+      ("read_after", readJson (Storage.readEvents classify limit after))]
   | _ => Json.mkObj [("err", "bad_op")]
 
 partial def loop (hin : IO.FS.Stream) (hout : IO.FS.Stream) : IO Unit := do
